@@ -106,6 +106,11 @@ Definition is_key (sch : schema) (s : sid) : bool :=
   | None => false
   end.
 
+(* leaf / leaf-list / anydata: LYD_NODE_TERM | LYD_NODE_ANY, no children *)
+Definition is_term_kind (k : skind) : bool :=
+  match k with KLeaf | KLeafList | KAny => true | _ => false end.
+Definition is_term (sch : schema) (s : sid) : bool := is_term_kind (kind_of sch s).
+
 (* non-presence container (lysc_is_np_cont) *)
 Definition is_np_cont (sch : schema) (s : sid) : bool :=
   match kind_of sch s with KCont false => true | _ => false end.
@@ -328,13 +333,15 @@ Definition opt_sid_eqb (a b : option sid) : bool :=
   | _, _ => false
   end.
 
-(* the node is an instance of a known schema node that belongs under parent p, a list instance has all its keys *)
+(* the node is an instance of a known schema node that belongs under parent p, a list instance has all its keys,
+   a term node has no children *)
 Definition node_okb (sch : schema) (p : option sid) (s : sid) (ch : forest) : bool :=
   match lookup sch s with
   | None => false
   | Some i =>
       opt_sid_eqb (si_parent i) p &&
-      forallb (fun k => existsb (fun c => d_sid c =? k) ch) (si_keys i)
+      forallb (fun k => existsb (fun c => d_sid c =? k) ch) (si_keys i) &&
+      (negb (is_term_kind (si_kind i)) || match ch with [] => true | _ => false end)
   end.
 
 Fixpoint canon_nodeb (sch : schema) (p : option sid) (n : dnode) {struct n} : bool :=
@@ -359,12 +366,13 @@ Definition sib_ok (sch : schema) (a b : dnode) : Prop :=
 
 Definition node_ok (sch : schema) (p : option sid) (s : sid) (ch : forest) : Prop :=
   exists i, lookup sch s = Some i /\ si_parent i = p /\
-            forall k, In k (si_keys i) -> exists c, In c ch /\ d_sid c = k.
+            (forall k, In k (si_keys i) -> exists c, In c ch /\ d_sid c = k) /\
+            (is_term_kind (si_kind i) = true -> ch = []).
 
 (* the canonical form lyd_insert_node() maintains and the parsers / validation produce:
    siblings in schema order, instances of one schema node contiguous, only (leaf-)lists have several instances,
-   system-ordered instances sorted by the type order of key tuple / value, list instances have their keys, every
-   node sits under its schema parent - recursively. (Keys come first in key order because the compiled schema
+   system-ordered instances sorted by the type order of key tuple / value, list instances have their keys, terms have
+   no children, every node sits under its schema parent - recursively. (Keys come first in key order because the compiled schema
    puts them first: [schema_okb] + TreeP.canon_keys_first.) *)
 Fixpoint CanonN (sch : schema) (p : option sid) (n : dnode) {struct n} : Prop :=
   match n with
@@ -391,11 +399,12 @@ Fixpoint uniq_nodeb (sch : schema) (n : dnode) {struct n} : bool :=
 Definition uniq_idsb (sch : schema) (f : forest) : bool :=
   uniq_idsb_list sch f && forallb (uniq_nodeb sch) f.
 
-(* schema sanity that the encoder guarantees: keys of a list are leaves whose parent is the list, they are the
-   smallest sids below the list and increase in key order *)
+(* schema sanity that the encoder guarantees: only lists have keys, keys of a list are leaves whose parent is the list,
+   they are the smallest sids below the list and increase in key order *)
 Definition schema_okb (sch : schema) : bool :=
   forallb (fun e : sid * sinfo =>
     let '(s, i) := e in
+    match si_kind i with KList => true | _ => match si_keys i with [] => true | _ => false end end &&
     forallb (fun k => match lookup sch k with
                       | Some ki => opt_sid_eqb (si_parent ki) (Some s) &&
                                    match si_kind ki with KLeaf => true | _ => false end
